@@ -30,6 +30,16 @@ import (
 // in one tx): a query seeing unequal values saw two heights; (iii) every query
 // result equals the idle twin's answer at SOME height between the committed height
 // when the query started and when it ended.
+//
+// Query tasks take a cooperative query mutex around each request, as the node's query
+// connection does (proxy.localClientCreator.queryMtx): queries interleave with the
+// consensus calls at every disk operation, but never with each other.
+//
+// One run in four uses a disk without snapshot support (simdb.NoSnap: NewSnapshot errors as
+// goleveldb/boltdb/lmdbdb/mdbxdb do), which drives rootmulti's ImmutableDB-over-the-live-DB
+// fallback. Isolation violations there carry the signature "no-snapshot-backend" so that
+// the known finding recorded for that fallback (KNOWN_FINDINGS.jsonl) never hides a torn
+// read on the snapshot path; the interference oracles (i) stay fully armed in both modes.
 
 func init() { engines["C28"] = runQueries }
 
@@ -121,10 +131,38 @@ func runQueries(c *kernel.Choices, p kernel.Params) *kernel.Result {
 	qn.mach.Yield = func(op string) { coop.Yield(op) }
 	defer func() { qn.mach.Yield = nil }()
 
-	var violation func(oracle, format string, args ...any)
-	violation = func(oracle, format string, args ...any) {
+	if noSnap {
+		w.r.Probe("runs_no_snapshot_backend")
+	} else {
+		w.r.Probe("runs_snapshot_backend")
+	}
+	violation := func(oracle, format string, args ...any) {
 		w.fail("C28", oracle, format, args...)
 	}
+	// isolation reports whether the run must stop. On the no-snapshot fallback a listed
+	// known finding is recorded once per oracle and the run goes on (the interference
+	// oracles still have blocks to check); anything not listed is a violation.
+	isolation := func(oracle, format string, args ...any) (stop bool) {
+		sig := "snapshot-backend"
+		if noSnap {
+			sig = "no-snapshot-backend"
+		}
+		v := &kernel.Violation{Property: "C28", Oracle: oracle, Signature: sig, Msg: fmt.Sprintf(format, args...)}
+		if noSnap && w.p.IsKnown(v) != nil {
+			if !w.knownSeen[oracle] {
+				w.knownSeen[oracle] = true
+				w.r.Known = append(w.r.Known, *v)
+			}
+			w.r.Probe("known_unisolated_read_on_no_snapshot_backend")
+			return false
+		}
+		if w.r.Violation == nil {
+			w.r.Violation = v
+		}
+		w.stop = true
+		return true
+	}
+	queryBusy := false // the query connection's mutex
 	sched.Go("consensus", func() {
 		for _, bl := range blocks {
 			if w.stop {
@@ -158,6 +196,8 @@ func runQueries(c *kernel.Choices, p kernel.Params) *kernel.Result {
 				if w.stop {
 					return
 				}
+				coop.Block("queryMtx", func() bool { return !queryBusy })
+				queryBusy = true
 				h0 := committed
 				var got, what string
 				switch kind {
@@ -175,6 +215,7 @@ func runQueries(c *kernel.Choices, p kernel.Params) *kernel.Result {
 					got = string(qn.query("vm/qfile", []byte(boxPath)).Data)
 				}
 				h1 := committed
+				queryBusy = false
 				w.r.Probe("queries")
 				if h1 != h0 {
 					w.r.Probe("queries_spanning_a_commit")
@@ -209,16 +250,19 @@ func runQueries(c *kernel.Choices, p kernel.Params) *kernel.Result {
 					inner := strings.TrimSuffix(strings.TrimPrefix(got, `("`), `" string)`)
 					parts := strings.Split(inner, ",")
 					if len(parts) == 2 && parts[0] != parts[1] {
-						violation("torn-read", "%s returned %s: the two objects are updated together in one tx, so this query mixed two heights", what, got)
-						return
+						if isolation("torn-read", "%s returned %s: the two objects are updated together in one tx, so this query mixed two heights", what, got) {
+							return
+						}
+						continue
 					}
 					if _, err := strconv.Atoi(parts[0]); err != nil {
 						ok = false
 					}
 				}
 				if !ok {
-					violation("query-not-at-one-committed-height", "%s started at committed height %d and ended at %d returned %q, which is the answer at none of those heights (%v)", what, h0, h1, clip(got, 200), want)
-					return
+					if isolation("query-not-at-one-committed-height", "%s started at committed height %d and ended at %d returned %q, which is the answer at none of those heights (%v)", what, h0, h1, clip(got, 200), want) {
+						return
+					}
 				}
 			}
 		})
